@@ -208,8 +208,7 @@ def _work_inner(item):
                 "wall_s": 0, "tb": traceback.format_exc(limit=5)}
     # the harness' own globals are put back to their defaults (a chain shares the process); what the *library* remembers
     # between calls is deliberately kept
-    tm = common.tensor_mod()
-    tm.gradient__, tm.retain_grads__ = True, False
+    common.reset_modes()
     signal.signal(signal.SIGALRM, _alarm)
     signal.alarm(int(limit))
     try:
